@@ -10,7 +10,7 @@ import Sml.Spec.Tiling
 
       `body d evs`  (the results produced while events are left),
       then the end-of-input report for the decoder state `endDec d evs`, then the idle answer
-      forever                                                          (`Rdr.calls_eq`).
+      forever                                                          (`RF.calls_eq`).
 
   All transformations of the event list asked for in C11 (erasing would-blocks / interrupts,
   cutting at an "other" error) are then statements about `body` / `endDec`.
@@ -70,7 +70,8 @@ theorem take_filter_take {α : Type} (p : α → Bool) (L : List α) (k W : Nat)
     omega
   rw [hsplit, List.take_append_of_le_length hk]
 
-namespace Rdr
+namespace RF
+open Rdr
 
 /-! ### the four entry points are `read` plus a relabelling of its result -/
 
@@ -221,7 +222,7 @@ theorem read_wouldBlock (kind : SrcKind) (d : Dec) (evs : List Ev) :
 theorem read_interrupted (d : Dec) (evs : List Ev) :
     read { kind := .io, dec := d, evs := .interrupted :: evs } =
       read { kind := .io, dec := d, evs := evs } := by
-  simp only [read]; rw [readLoop]
+  simp only [Rdr.read]; rw [readLoop]
 
 theorem read_other (kind : SrcKind) (d : Dec) (evs : List Ev) :
     read { kind := kind, dec := d, evs := .other :: evs } =
@@ -653,9 +654,9 @@ theorem body_bytes (s : List UInt8) : ∀ d : Dec,
     simp only
     cases (d.push b).2 with
     | none => rw [List.filterMap_cons_none rfl]; rfl
-    | msg m => rw [List.filterMap_cons_some rfl]; rfl
-    | err e => rw [List.filterMap_cons_some rfl]; rfl
-    | panic t => rw [List.filterMap_cons_some rfl]; rfl
+    | msg m => rw [List.filterMap_cons_some (f := Out.toItem?) (b := Item.ok m) rfl]; rfl
+    | err e => rw [List.filterMap_cons_some (f := Out.toItem?) (b := Item.err e) rfl]; rfl
+    | panic t => rw [List.filterMap_cons_some (f := Out.toItem?) (b := Item.panic t) rfl]; rfl
 
 theorem eofItem_eq_rEnd {d : Dec} (h : Dec.Inv d) : eofItem d = d.rEnd := by
   unfold eofItem Dec.rEnd
@@ -714,6 +715,6 @@ theorem reads_exhausted {kind : SrcKind} (hk : kind ≠ .eh) (k : Nat) {d : Dec}
   rw [calls_exhausted hk _ h, List.map_replicate]
   rfl
 
-end Rdr
+end RF
 
 end Sml
